@@ -48,8 +48,8 @@ def run(ctx):
     ctx.cov['rule'] = ('primitives: every boundary value (2^k, 2^k+-1 for k in 7..192, 0, +-1), all string/byte lengths 0..40, '
                        'seeded random values; decoders on valid encodings with every truncation and single-field corruption. '
                        'A case is non-trivial when distinct after canonicalisation (kind, value or byte string).')
-    ctx.regen(only=['enums', 'kmiperrors'])
-    ctx.prove('props/C02.v')
+    ctx.regen(only=['enums', 'kmiperrors', 'schemas'])
+    ctx.prove('props/C02.v', extra_targets=['props/C02E.v'])
     quick = ctx.tier == 'quick'
     cases, meta = prim_cases(ctx, 40 if quick else 400, 6 if quick else 40)
     bad = ctx.run_cases('prims', HEADER, cases, 'check_pcase', what='enc_prim/dec_prim/validate_prim vs kmip.core.primitives')
@@ -191,11 +191,96 @@ def run_envelope(ctx):
         ctx.sample({'envelope_case': cases[0], 'request': repr(meta[0][0])})
 
 
+# ---------------------------------------------------------------------- structure writers (direct oracle)
+def struct_emission(ctx):
+    """Everything the write() methods of the codec classes emit is parsed by the independent TTLV parser.
+    Objects come from (a) schema-generated values (independent encoder -> real read() -> real write()), for every
+    translated class under every version that defines it, and (b) the encodings harvested from the unit tests, for
+    every Struct subclass including the five outside the translator."""
+    import c01
+    import schemagen as sg
+    import ttlvparse
+    quick = ctx.tier == 'quick'
+    doc = c01.load_schema()
+    schema = sg.Schema(doc)
+    n = nw = 0
+
+    def emitted(cname, v, out, src, how):
+        probs = ttlvparse.check(out)
+        if not probs and int.from_bytes(out[:3], 'big') >> 16 not in (0x42, 0x54):
+            probs = ['tag %06x is outside 42xxxx / 54xxxx' % int.from_bytes(out[:3], 'big')]
+        for p in probs:
+            ctx.violation({'class': cname, 'what': 'struct-emission', 'problem': p.split(' (')[0][:50]},
+                          {'class': cname, 'version': v, 'emitted': out.hex(), 'decoded_from': src.hex(), 'how': how},
+                          '%s.write() under version %d emits bytes that are not well-formed TTLV: %s' % (cname, v, p))
+
+    for cdoc in doc['classes']:
+        cname = cdoc['name']
+        if 'stub' in cdoc.get('flags', []):
+            continue
+        cls = c01.real_class(cdoc)
+        tag = cdoc['default_tag']
+        gen = sg.Gen(schema, ctx.subrng('emit/' + cname))
+        for v in schema.versions_of(cname):
+            vectors, _ = gen.count_vectors(cname, v, 4 if quick else 24, exhaustive_limit=4 if quick else 6)
+            for counts in vectors:
+                bs = sg.encode(tag, gen.struct(cname, v, 0, counts))
+                obj, rest = c01.impl_read(cls, bs, v)
+                if obj is None:
+                    continue
+                out = c01.impl_write(obj, v)
+                n += 1
+                if out is None:
+                    ctx.count('emit.write-refused')
+                    continue
+                nw += 1
+                ctx.case_seen(('emit', cname, v, out), nontrivial=True)
+                emitted(cname, v, out, bs, 'schema-generated value')
+    by_tag = {}
+    from kmip.core import primitives
+    for mn, name, c, tag in c01.all_struct_classes():
+        if c.write is primitives.Base.write or c.read is primitives.Base.read:
+            continue        # abstract bases (RequestPayload, ResponsePayload, ...): no codec of their own, never emitted
+        by_tag.setdefault(tag, []).append((name, c))
+    per = {}
+    for f, b in c01.harvest_blobs(ctx.repo):
+        for name, c in by_tag.get(int.from_bytes(b[:3], 'big'), []):
+            for v in sg.VERSIONS:
+                if quick and per.get((name, v), 0) >= 12:
+                    continue
+                obj, rest = c01.impl_read(c, b, v)
+                if obj is None:
+                    continue
+                out = c01.impl_write(obj, v)
+                if out is None:
+                    continue
+                per[(name, v)] = per.get((name, v), 0) + 1
+                nw += 1
+                ctx.case_seen(('emit', name, v, out), nontrivial=True)
+                emitted(name, v, out, b, 'harvested unit-test encoding')
+    # the two classes that keep the raw remainder of their structure: constructed with opaque content
+    from kmip.core import objects, misc, utils
+    for name, c in (('KeyMaterialStruct', objects.KeyMaterialStruct), ('ServerInformation', misc.ServerInformation)):
+        for content in (b'', b'\x42\x00\x08\x07\x00\x00\x00\x01a\x00\x00\x00\x00\x00\x00\x00', b'\x01\x02\x03'):
+            o = c()
+            o.data = utils.BytearrayStream(content)
+            out = c01.impl_write(o, 12)
+            if out is not None:
+                nw += 1
+                emitted(name, 12, out, content, 'constructed with opaque content')
+    ctx.cov['struct_emission'] = {'objects': n, 'emitted_and_parsed': nw, 'classes_from_harvest': len({k[0] for k in per})}
+    ctx.log('struct emission: %d emitted byte strings parsed by the independent parser (%d classes reached through harvested encodings)' % (
+        nw, len({k[0] for k in per})))
+
+
 _run_prims = run
 
 
 def run(ctx):
     _run_prims(ctx)
+    ctx.cov['rule'] += (' Structures: props/C02E.v instantiates wr_wf at the writer schemas regenerated from the tree; in addition '
+                        'every class writes schema-generated and harvested objects and the output is parsed by the independent parser.')
+    struct_emission(ctx)
     ctx.cov['rule'] += (' Envelope: seeded random request histories (~70% successes, every error class reachable by the workload, '
                         'request-level errors) on the real engine; every response is encoded and parsed by an independent TTLV '
                         'parser; distinct = distinct (operation, status, reason, message).')
